@@ -38,6 +38,8 @@ REQUIRED_COUNTERS = ["renders", "inherited_cached_renders", "recompiles_under_th
 REQUIRED_COUNTERS += ["anonymous_position_templates"]
 RULE += "; cached sections whose stored output is the empty string (seven shapes) on rec, Beaker memory/file and the in-tree \"plain\" backend"
 REQUIRED_COUNTERS += ["empty_output_templates"]
+RULE += "; cached sections of a module wrapped as ModuleTemplate (and its get_def) on rec and Beaker memory/file"
+REQUIRED_COUNTERS += ["module_template_cached_renders"]
 
 _st = {"counter": 0}
 
@@ -520,6 +522,8 @@ def gen_cases(tier, seed):
     # ("plain" is the dictionary backend that Mako ships in mako.testing.fixtures)
     for b in ("rec", "beaker-memory", "beaker-file", "plain"):
         yield {"kind": "empty-output", "backend": b}
+    for b in ("rec", "beaker-memory", "beaker-file"):
+        yield {"kind": "module-template", "backend": b}
     n = 4000 if tier == "quick" else 40000
     per = 10
     for i in range(n // per):
@@ -757,6 +761,49 @@ def run_empty_output(case, res):
         res.nontrivial("empty-output", backend, name)
 
 
+def run_module_template(case, res):
+    """the generated module wrapped as ModuleTemplate (with the backend's arguments given to the wrapper): its cached
+    sections are executed once and replayed, like those of the Template the module came from"""
+    from mako.template import ModuleTemplate
+
+    T = _st["Template"]
+    backend = case["backend"]
+    _st["counter"] += 1
+    uid = "%d_%d" % (os.getpid(), _st["counter"])
+    impl, base_args, dog = make_backend(backend, uid + "_mt")
+    Rec.store.clear()
+    Rec.created.clear()
+    reg = ' cache_region="%s"' % dog if dog else ""
+    src = ('<%def name="c(a)" cached="True" cache_key="c-${str(a)}"' + reg + '>C${a}:${tick("c")}</%def><%block name="b" cached="True"' + reg + '>B:${tick("b")}</%block>'
+           '[${c(1)}${c(2)}${c(1)}]')
+    ticks = {}
+
+    def tick(n):
+        ticks[n] = ticks.get(n, 0) + 1
+        return ticks[n]
+
+    for route in ("ModuleTemplate", "ModuleTemplate.get_def"):
+        ticks.clear()
+        res.evaluations += 1
+        res.count("module_template_cached_renders")
+        what = "backend=%s, %s over the module of a template with a cached def and a cached block" % (backend, route)
+        try:
+            mod = T(src, uri="/mt_%s_%s.html" % (uid, route[-3:])).module
+            mt = ModuleTemplate(mod, cache_impl=impl, cache_args=dict(base_args))
+            if route == "ModuleTemplate":
+                outs = [mt.render_unicode(tick=tick) for _ in range(2)]
+                want, tw = ["B:1[C1:1C2:2C1:1]"] * 2, {"b": 1, "c": 2}
+            else:
+                outs = [mt.get_def("c").render_unicode(7, tick=tick) for _ in range(2)]
+                want, tw = ["C7:1"] * 2, {"c": 1}
+        except Exception as e:
+            res.violate("module-template-cached-section", "%s: %s: %s" % (what, type(e).__name__, e), witness="ModuleTemplate with a cached section")
+            continue
+        if outs != want or ticks != tw:
+            res.violate("module-template-cached-section", "%s: two renders gave %r, expected %r; bodies executed %r, expected %r" % (what, outs, want, ticks, tw))
+        res.nontrivial("module-template", backend, route)
+
+
 def run_raising(case, res):
     """a cached section whose body raises: the exception propagates, nothing is stored for its key, and the body runs
     again on the next render"""
@@ -829,6 +876,9 @@ def run_case(case):
         return res
     if case["kind"] == "empty-output":
         run_empty_output(case, res)
+        return res
+    if case["kind"] == "module-template":
+        run_module_template(case, res)
         return res
     if case["kind"] == "batch":
         for j in range(case["n"]):
